@@ -43,3 +43,9 @@ func patchedBlockIndex(index []tensor.Range, shape []int) (bidx []tensor.Range) 
 func lastDimRestored(gy tensor.Tensor) (o tensor.Tensor, err error) {
 	return gy.UnSqueeze(len(gy.Shape()))
 }
+
+func copiedIndex(index []tensor.Range) (cidx []tensor.Range) {
+	cidx = make([]tensor.Range, len(index))
+	copy(cidx, index)
+	return cidx
+}
